@@ -122,6 +122,7 @@ func runSelfValidation(prop, repo, verif string, res *Result) {
 			ID     string   `json:"id"`
 			Title  string   `json:"title"`
 			Alarms []string `json:"alarms_at_first_contact"`
+			Status string   `json:"status"`
 		}
 		if json.Unmarshal(b, &meta) != nil || meta.ID == "" {
 			continue
@@ -135,7 +136,11 @@ func runSelfValidation(prop, repo, verif string, res *Result) {
 		if !mine {
 			continue
 		}
-		muts = append(muts, mutant{Name: "refactor-" + meta.ID, Kind: "refactor", Desc: meta.Title, Patch: filepath.Join(filepath.Dir(mf), "patch.diff")})
+		kind := "refactor"
+		if strings.HasPrefix(meta.Status, "false-alarm") {
+			kind = "refactor-open-false-alarm" // recorded in refactors/README.md and DESIGN 7.4 as not repaired
+		}
+		muts = append(muts, mutant{Name: "refactor-" + meta.ID, Kind: kind, Desc: meta.Title, Patch: filepath.Join(filepath.Dir(mf), "patch.diff")})
 	}
 	results := make([]mutantResult, len(muts))
 	sem := make(chan struct{}, 6)
@@ -150,9 +155,11 @@ func runSelfValidation(prop, repo, verif string, res *Result) {
 		}(i)
 	}
 	wg.Wait()
-	det, miss, silent, fa, skipped, docMiss := 0, 0, 0, 0, 0, 0
+	det, miss, silent, fa, skipped, docMiss, openFA := 0, 0, 0, 0, 0, 0, 0
 	for _, r := range results {
 		switch r.Outcome {
+		case "open-false-alarm":
+			openFA++
 		case "detected":
 			det++
 		case "missed":
@@ -174,6 +181,10 @@ func runSelfValidation(prop, repo, verif string, res *Result) {
 	res.Extra["refactors_false_alarm"] = fa
 	res.Extra["variants_skipped"] = skipped
 	res.Extra["seeded_documented_misses"] = docMiss
+	res.Extra["refactors_open_false_alarm"] = openFA
+	if openFA > 0 {
+		fmt.Printf("%s self-validation: %d stored restructuring(s) still raise a false alarm of this property (documented as open in refactors/README.md)\n", prop, openFA)
+	}
 	fmt.Printf("%s self-validation: %d break variant(s) detected, %d missed; %d refactor variant(s) silent, %d false alarm(s); %d skipped\n",
 		prop, det, miss, silent, fa, skipped)
 	for _, r := range results {
@@ -271,6 +282,13 @@ func runMutant(self, prop, repo, verif string, m mutant) mutantResult {
 			out.Outcome = "missed"
 			out.Detail = m.Desc
 		}
+	case "refactor-open-false-alarm":
+		if violated {
+			out.Outcome = "open-false-alarm"
+			out.Detail = firstLineWith(text, prop+" ")
+		} else {
+			out.Outcome = "silent"
+		}
 	default:
 		if violated {
 			out.Outcome = "false-alarm"
@@ -284,6 +302,9 @@ func runMutant(self, prop, repo, verif string, m mutant) mutantResult {
 
 func firstLineWith(text, sub string) string {
 	for _, l := range strings.Split(text, "\n") {
+		if strings.Contains(l, "VIOLATION property=") {
+			continue // never echo a child's verdict line: the verdict printed is the one on the tree given
+		}
 		if strings.Contains(l, sub) {
 			if len(l) > 260 {
 				l = l[:260] + "…"
